@@ -661,3 +661,61 @@ def check_alphabets(ctx, rep):
         else:
             rep.ok("T-ALPHABET", key, body.where(), "%s: reader class %s contains the well-formed alphabet" % (what, scanai.mask_str(got)))
     return n
+
+
+# ---------------------------------------------------------------------- number / timestamp spellings
+def check_number_format(ctx, rep, files=("encoding/zinc/encode.rs",)):
+    """every f64 interpolated by a writer uses plain `{}` Display (shortest round-trip digits): a width / precision / exponent
+    format would change the magnitude that is read back"""
+    prog = ctx.prog
+    n = 0
+    for b in prog.bodies.values():
+        if not b.file.endswith(files):
+            continue
+        seen = 0
+        for bi, t in b.calls():
+            nm = strip_generics(mir.callee_name(t) or "")
+            if nm not in ("std::io::Write::write_fmt", "std::fmt::Formatter::write_fmt", "std::fmt::format"):
+                continue
+            a = fmtargs.arguments_of(b, t["args"][-1])
+            if not a or a[1] is None:
+                continue
+            pieces, args = a
+            for p in pieces:
+                if p[0] != "arg":
+                    continue
+                d = p[1]
+                tr, ty, vop = args[d["index"]]
+                if ty.replace("&", "").strip() not in ("f64", "f32"):
+                    continue
+                n += 1
+                key = "numfmt:%s#%d" % (b.short, seen)
+                seen += 1
+                if tr == "Display" and d["precision"] is None and d["width"] is None and not d["flags"]:
+                    rep.ok("T-NUMFMT", key, b.where(bi), "f64 written with plain {} (shortest digits that read back to the same f64)")
+                else:
+                    rep.bad("T-NUMFMT", "T-NUMFMT:numfmt:%s" % b.short, b.where(bi), "an f64 is written through %s with width=%s precision=%s flags=%s: the text no longer determines the same f64" % (tr, d["width"], d["precision"], d["flags"]))
+    return n
+
+
+def check_timestamp_format(ctx, rep):
+    """timestamps are written with to_rfc3339_opts(SecondsFormat::AutoSi | Nanos, _): a coarser SecondsFormat drops sub-second digits"""
+    prog = ctx.prog
+    n = 0
+    for b in prog.bodies.values():
+        if not (b.file.endswith("encoding/zinc/encode.rs") or b.file.endswith("encoding/json/encode.rs") or b.file.endswith("val/datetime.rs")):
+            continue
+        for bi, t in b.calls():
+            nm = strip_generics(mir.callee_name(t) or "")
+            if not nm.endswith("::to_rfc3339_opts"):
+                continue
+            n += 1
+            fmtv = G.describe(b, t["args"][1])
+            key = "tsfmt:%s#%d" % (b.short, bi)
+            if b.rec.get("name") == "to_rfc3339_opts" and fmtv.kind == "place":
+                rep.ok("T-TSFMT", "tsfmt:%s:forwarder" % b.short, b.where(bi), "forwards its caller's SecondsFormat")
+            elif fmtv.kind == "agg" and fmtv.v in ("AutoSi", "Nanos"):
+                rep.ok("T-TSFMT", "tsfmt:%s" % b.short, b.where(bi), "SecondsFormat::%s keeps every sub-second digit" % fmtv.v)
+            else:
+                rep.bad("T-TSFMT", "T-TSFMT:tsfmt:%s" % b.short, b.where(bi), "timestamp written with SecondsFormat %r: sub-second digits are dropped, the instant read back differs" % fmtv)
+    return n
